@@ -300,9 +300,6 @@ Eff(largs) ==
   ELSE IF largs[1] = "timeout" /\ Len(largs) >= 3 THEN Eff(SubSeq(largs, 3, Len(largs)))
   ELSE IF largs[1] \in {"config", "script"} /\ Len(largs) >= 2 THEN largs[1] \o " " \o largs[2]
   ELSE largs[1]
-RECURSIVE EffArgs(_)
-EffArgs(largs) ==
-  IF Len(largs) >= 3 /\ largs[1] = "timeout" THEN EffArgs(SubSeq(largs, 3, Len(largs))) ELSE largs
 
 OkCmds  == {"set", "flushdb", "rename", "jset", "jdel", "readonly", "follow", "slaveof", "replconf", "config set", "config rewrite",
             "client", "gc", "aofshrink", "healthz", "output", "script flush", "auth", "massinsert", "sleep"}
